@@ -414,3 +414,21 @@ Example C02_ex_ext :
   (decompress e 6 [1; 2], decompress e 2 [1; 2], decompress e 0 [1; 2], decompress no_ext 6 [1; 2])
   = (Some [2; 1], None, Some [1; 2], None).
 Proof. vm_compute. reflexivity. Qed.
+
+(** ** Dictionary lookup of the specification decoder
+
+    The decoder looks dictionary indexes up in blocks of 256 values (linear time on dictionaries of 2^16 and more
+    values, index bit widths 17 and 18); that is the lookup by position, for every dictionary and index. *)
+Theorem C02_dictionary_lookup : forall (dict : list bytes) (i : N),
+  dict_lookup (dict_blocks dict) i = nth_error dict (N.to_nat i).
+Proof. exact (@dict_lookup_eq bytes). Qed.
+
+Print Assumptions C02_dictionary_lookup.
+
+(* non-vacuity: positions inside, at the end of and beyond a dictionary of 600 values (three blocks) *)
+Example C02_ex_dictionary_lookup :
+  let dict := map (fun k => [N.of_nat k mod 256; N.of_nat k / 256]) (seq 0 600) in
+  (dict_lookup (dict_blocks dict) 0, dict_lookup (dict_blocks dict) 255, dict_lookup (dict_blocks dict) 256,
+   dict_lookup (dict_blocks dict) 599, dict_lookup (dict_blocks dict) 600)
+  = (Some [0; 0], Some [255; 0], Some [0; 1], Some [87; 2], None).
+Proof. vm_compute. reflexivity. Qed.
